@@ -7,6 +7,7 @@ from ..runner import new_result, viol, bump, case_seed
 PID = 'C04'
 LEVEL = 'exploration'
 RULE = ('cases: every simulator (12 entry points) x {arrays, full data} x seeded random/boundary inputs (graphs n<=14 incl. single '
+        'node; plus one network of 10^4 (thorough: up to 7x10^4) nodes per simulator; '
         'node, edgeless, isolated nodes; rates/p incl. 0 and 1; weights incl. 0; tmin in {0,-3,2.5,1}; finite/infinite/tiny horizons; '
         'initial sets in every container form, with initially recovered nodes).  Non-trivial = the returned trajectory has >=2 rows; '
         'distinct = (simulator, mode, graph iso key, #rows bucket).')
@@ -15,7 +16,7 @@ ASSUMPTIONS = ['inputs inside the documented domain (tmin<tmax, disjoint existin
 BUDGET = {'quick': 150, 'thorough': 1200}
 CHUNK = {'quick': 40, 'thorough': 200}
 START_PREDS = {'row0_counts', 'statuses_at_tmin', 'recovered_history', 'recovered_node_infected'}
-REQUIRED = ['contract_evaluations', 'row_moves_checked', 'extinction_checked', 'repo_sweep_tests_under_contracts'] + ['calls:' + s for s in simreg.ALL_SIMS]
+REQUIRED = ['big_network_runs', 'contract_evaluations', 'row_moves_checked', 'extinction_checked', 'repo_sweep_tests_under_contracts'] + ['calls:' + s for s in simreg.ALL_SIMS]
 MINE = lambda pred: pred not in START_PREDS
 
 
@@ -33,6 +34,39 @@ def gen_cases(tier, seed):
         if sim == 'Gillespie_simple_contagion' and r.random() < 0.3 and not c['full']:
             ks = len(c['spec']['statuses'])
             c['return_idx'] = sorted(r.sample(range(ks), r.randint(1, ks)))
+        out.append(c)
+    # size-gated code paths: every simulator also on a few large networks (10^4 .. 10^5 nodes)
+    for j, sim in enumerate(simreg.ALL_SIMS * (1 if tier == 'quick' else 3)):
+        cs = case_seed(seed, PID + 'big', j)
+        r = random.Random(cs)
+        c = simreg.random_sim_case(r, sim)
+        N = [10400, 24000, 70000][j // len(simreg.ALL_SIMS)] + r.randrange(200)
+        c['graph'] = {'n': N, 'edges': [], 'big': {'k': r.choice([2, 3]), 'seed': cs}, 'labels': r.choice(['int', 'offset', 'str', 'neg'])}
+        for key in ('prehistory', 'ic_extra', 'rho', 'R0_explicit_empty', 'sim_kwargs'):
+            c.pop(key, None)
+        c['wm'] = 'none'
+        c['big'] = True
+        c['full'] = (j % 2 == 1)
+        c['tmin'] = r.choice([0, -3, 2.5])
+        if sim in simreg.DISCRETE:
+            c['tmax'] = c['tmin'] + r.choice([3, 6])
+        elif sim in simreg.SIR_SIMS:
+            c['tmax'] = r.choice(['inf', c['tmin'] + 2.0])
+        else:
+            c['tmax'] = c['tmin'] + r.choice([0.5, 1.5])
+        if sim not in simreg.GENERIC_SIMS:
+            c['I0'] = sorted(r.sample(range(N), r.randint(1, 30)))
+            c['I0_form'] = 'list'
+            rest = [i for i in range(0, N, 7) if i not in set(c['I0'])]
+            c['R0'] = sorted(r.sample(rest, r.randint(0, 40))) if sim in simreg.SIR_SIMS else []
+            c['R0_form'] = 'list'
+        else:
+            ks = len(c['spec']['statuses']) if sim == 'Gillespie_simple_contagion' else 2
+            c['IC'] = [r.randrange(ks) if r.random() < 0.1 else 0 for _ in range(N)]
+            if sim == 'Gillespie_simple_contagion':
+                c['weight_form'] = None
+                c.pop('spont_boost', None)
+                c.pop('nbr_boost', None)
         out.append(c)
     # the repository's own sweep tests (2500-node grid, tuple labels) with the contracts switched on
     for name in SWEEP_TESTS:
@@ -130,6 +164,8 @@ def run_case(case):
         viol(res, '%s|%s|exception:%s' % (case.get('alias') or case['sim'], ('full' if case.get('full') else 'arrays') + ('+R0' if case.get('R0') else ''),
                                           simcase.exc_key(err)), {'err': repr(err)})
         return res
+    if case.get('big'):
+        bump(res, 'big_network_runs')
     if call.full and hasattr(out, 't'):
         rows = len(out.t())
     else:
